@@ -373,6 +373,44 @@ static spif_obj_t vl_data_map(vl_map_t *m, int i)
     } while (0)
 #endif
 
+/* read the chain back into r (a vl_seq_t), asserting the representation invariant on the way;
+ * used where the property fixes the result only up to the order of equal elements (C04).
+ * NONNULL: 1 = every node must hold an element (vectors, maps) */
+#define VL_READ(self, IT, LINK, r, NONNULL, OP) do { \
+        int vl_i; IT vl_c = (self)->head; IT vl_p = NULL; \
+        __CPROVER_assert((self)->len >= 0 && (self)->len <= VL_CAP, OP ": len field within the expected range"); \
+        (r).len = 0; \
+        for (vl_i = 0; vl_i < VL_CAP && vl_c != NULL; vl_i++) { \
+            (r).e[vl_i] = vl_c->data; \
+            if (NONNULL) __CPROVER_assert(vl_c->data != NULL, OP ": every node holds an element (no NULL slot)"); \
+            (r).key[vl_i] = (vl_c->data != NULL) ? ((velem_t) vl_c->data)->key : 0; \
+            LINK ## _CHK_NODE(vl_c, vl_p, OP); \
+            vl_p = vl_c; vl_c = vl_c->next; (r).len++; \
+        } \
+        __CPROVER_assert(vl_c == NULL && (r).len == (self)->len, OP ": chain length equals len field (last->next == NULL)"); \
+        LINK ## _CHK_END(self, vl_p, OP); \
+    } while (0)
+
+static int vl_sorted(const vl_seq_t *r)
+{
+    int i;
+    for (i = 0; i + 1 < r->len && i + 1 < VL_CAP; i++) if (r->key[i] > r->key[i + 1]) return 0;
+    return 1;
+}
+static int vl_has_ptr(const vl_seq_t *r, spif_obj_t p)
+{
+    int i;
+    for (i = 0; i < r->len && i < VL_CAP; i++) if (r->e[i] == p) return 1;
+    return 0;
+}
+/* every element of a occurs in b (elements are pairwise distinct objects, so with |b| == |a| (+1) this is multiset equality) */
+static int vl_subset(const vl_seq_t *a, const vl_seq_t *b)
+{
+    int i;
+    for (i = 0; i < a->len && i < VL_CAP; i++) if (!vl_has_ptr(b, a->e[i])) return 0;
+    return 1;
+}
+
 /* length of a built list: 0..VL_MAXN, or fixed by the unit (VL_FIXN) */
 static int vl_pick_len(void)
 {
